@@ -1198,11 +1198,83 @@ func fdsDirect(seed uint64, tier string, args []string, w *bufio.Writer) {
 		})
 	}
 
+	// ... and for the other kinds: IO.Close first, then Close, another object takes the number, Close again
+	for _, kind := range []string{"timer", "packet", "listener"} {
+		kind := kind
+		d.trial("close-after-io-close."+kind, kind+".Close twice after IO.Close with an operation in flight, a pipe created in between", func() {
+			io2, err := sonic.NewIO()
+			if err != nil {
+				return
+			}
+			var closeIt func() error
+			switch kind {
+			case "timer":
+				t, err := sonic.NewTimer(io2)
+				if err != nil {
+					io2.Close()
+					return
+				}
+				_ = t.ScheduleOnce(time.Hour, func() {})
+				closeIt = t.Close
+			case "packet":
+				pc, err := sonic.NewPacketConn(io2, "udp", "127.0.0.1:0")
+				if err != nil {
+					io2.Close()
+					return
+				}
+				_ = syscall.SetNonblock(pc.RawFd(), true)
+				io2.Dispatched = sonic.MaxCallbackDispatch
+				pc.AsyncReadFrom(make([]byte, 8), func(error, int, net.Addr) {})
+				io2.Dispatched = 0
+				closeIt = pc.Close
+			case "listener":
+				l, err := sonic.Listen(io2, "tcp", "127.0.0.1:0", sonicopts.Nonblocking(true))
+				if err != nil {
+					io2.Close()
+					return
+				}
+				l.AsyncAccept(func(error, sonic.Conn) {})
+				closeIt = l.Close
+			}
+			io2.Close()
+			_ = closeIt()
+			// IO.Close and the object's Close freed three numbers: take all of them (two pipes)
+			var p1, p2 [2]int
+			if err := syscall.Pipe2(p1[:], syscall.O_CLOEXEC); err != nil {
+				return
+			}
+			if err := syscall.Pipe2(p2[:], syscall.O_CLOEXEC); err != nil {
+				_ = syscall.Close(p1[0])
+				_ = syscall.Close(p1[1])
+				return
+			}
+			p := []int{p1[0], p1[1], p2[0], p2[1]}
+			_ = closeIt()
+			_ = closeIt()
+			for _, fd := range p {
+				if _, err := unix.FcntlInt(uintptr(fd), unix.F_GETFD, 0); err != nil {
+					d.fail("foreign-close", "%s: a repeated Close after IO.Close closed descriptor %d, which belongs to a pipe created in between", kind, fd)
+				} else {
+					_ = syscall.Close(fd)
+				}
+			}
+		})
+	}
+
 	// 6. garbage collection with operations deferred: the registry keeps the owner alive, the completion arrives
 	for _, kind := range []string{"conn-read", "conn-write", "conn-both", "adapter-read", "adapter-both", "packet-read", "listener-accept"} {
 		kind := kind
 		d.trial("gc."+kind, "drop all references with "+kind+" deferred, collect, complete", func() {
 			fdsGcTrial(d, ioc, kind, r)
+		})
+	}
+
+	// 6a. a repeated Close of an object whose descriptor number now belongs to another object with an operation in flight
+	// must leave the other object's registration (and so its life) alone
+	for _, xkind := range []string{"packet", "conn", "listener"} {
+		xkind := xkind
+		d.trial("gc.stale-close."+xkind, "Close "+xkind+" X; Y gets X's descriptor number and defers a read; X.Close() again", func() {
+			fdsStaleCloseTrial(d, ioc, xkind)
 		})
 	}
 
@@ -1391,6 +1463,74 @@ func fdsGcStart(ioc *sonic.IO, kind string, completed *int, finalized *bool, pay
 		return fd, &net.TCPAddr{IP: net.IPv4(127, 0, 0, 1), Port: in4.Port}, nil
 	}
 	return -1, nil, fmt.Errorf("unknown gc kind")
+}
+
+func fdsStaleCloseTrial(d *fdsDirectState, ioc *sonic.IO, xkind string) {
+	var closeX func() error
+	fdX := -1
+	switch xkind {
+	case "packet":
+		x, err := sonic.NewPacketConn(ioc, "udp", "127.0.0.1:0")
+		if err != nil {
+			d.fail("gc.stale-close."+xkind, "setup: %v", err)
+			return
+		}
+		fdX, closeX = x.RawFd(), x.Close
+	case "conn":
+		x, err := sonic.Dial(ioc, "tcp", fdsLn.Addr().String())
+		if err != nil {
+			d.fail("gc.stale-close."+xkind, "setup: %v", err)
+			return
+		}
+		if p := fdsAccept(2 * time.Second); p != nil {
+			p.Close()
+		}
+		fdX, closeX = x.RawFd(), x.Close
+	case "listener":
+		x, err := sonic.Listen(ioc, "tcp", "127.0.0.1:0", sonicopts.Nonblocking(true))
+		if err != nil {
+			d.fail("gc.stale-close."+xkind, "setup: %v", err)
+			return
+		}
+		fdX, closeX = x.RawFd(), x.Close
+	}
+	_ = closeX()
+	y, err := sonic.NewPacketConn(ioc, "udp", "127.0.0.1:0")
+	if err != nil {
+		d.fail("gc.stale-close."+xkind, "setup of the second object: %v", err)
+		return
+	}
+	defer y.Close()
+	if y.RawFd() != fdX {
+		return // the kernel handed out another number: nothing to observe this time
+	}
+	sa, _ := syscall.Getsockname(y.RawFd())
+	in4, _ := sa.(*syscall.SockaddrInet4)
+	if in4 == nil {
+		return
+	}
+	_ = syscall.SetNonblock(y.RawFd(), true)
+	done := false
+	buf := make([]byte, 16)
+	ioc.Dispatched = sonic.MaxCallbackDispatch
+	y.AsyncReadFrom(buf, func(err error, n int, _ net.Addr) { done = err == nil && n == 3 })
+	ioc.Dispatched = 0
+	_ = closeX() // the repeated Close of the object that no longer owns the number
+	if !ioc.VerifRegistered(fdX) {
+		d.fail("gc.unregistered-in-flight", "repeated Close of a closed %s dropped the registration of descriptor %d, which now belongs to a packet connection with a read in flight", xkind, fdX)
+		return
+	}
+	if u, err := net.DialUDP("udp", nil, &net.UDPAddr{IP: net.IPv4(127, 0, 0, 1), Port: in4.Port}); err == nil {
+		_, _ = u.Write([]byte("abc"))
+		defer u.Close()
+	}
+	for i := 0; i < 200 && !done; i++ {
+		runtime.GC()
+		_ = ioc.RunOneFor(5 * time.Millisecond)
+	}
+	if !done {
+		d.fail("gc.completion-lost", "the read of the packet connection that inherited descriptor %d from a closed %s never completed after the repeated Close", fdX, xkind)
+	}
 }
 
 func fdsGcTrial(d *fdsDirectState, ioc *sonic.IO, kind string, r *rng) {
